@@ -548,7 +548,24 @@ def rule_g9(F):
     return r
 
 
+def rule_g10(F):
+    """The gate's view of an unconstrained literal equals the code generator's (i32 / f64)."""
+    from . import c01
+    r = c01.rule_t4(F)
+    r.rule = "C04.G10"
+    r.desc = "unconstrained literals are checked against the same default type (i32 / f64) the compiled code uses"
+    for v in r.violations:
+        v.rule = "C04.G10"
+        v.msg = v.msg + " (the signature gate and the generated code would disagree on this position)"
+    return r
+
+
 def rules(ctx):
     F = ctx["F"]
     g5, lt = rule_g5(F)
-    return [rule_g1(F), rule_g2(F), rule_g3(F), rule_g4(F), g5, rule_g6(F), rule_g7(F, lt), rule_g9(F)]
+    return [rule_g1(F), rule_g2(F), rule_g3(F), rule_g4(F), g5, rule_g6(F), rule_g7(F, lt), rule_g9(F), rule_g10(F)]
+
+
+def thorough_rules(ctx):
+    from .. import witness
+    return [witness.rule("C04", "C04.G8", "sealed traits and private constructor: downstream code cannot implement Value/RotoFunc or build a TypedFunc (compile-fail witnesses with compiling twins)")]
